@@ -12,7 +12,6 @@ From Coq Require Import NArith List Bool String.
 Import ListNotations.
 From Verif.model Require Import AgreementTypes AgreementVotes AgreementProposals.
 Open Scope N_scope.
-Open Scope string_scope.
 
 (* ---------- rootRouter.update(state, r, gc=true) ---------- *)
 Definition root_update (pm : params) (pl : player) (r : N) (rt : router) : router :=
@@ -178,8 +177,8 @@ Definition pm_new_period (pm : params) (pl : player) (rt : router) (th : thresh)
   Ok (fst r).
 
 (* proposalManager.handle(thresholdEvent): Some = soft/cert result, None = emptyEvent (next) *)
-Definition pm_threshold (pm : params) (pl : player) (rt : router) (th : thresh) : res (router * option thres) :=
-  let rt := root_update pm pl 0 rt in           (* the player dispatches with (0,0,0) or (Round,Period,0) *)
+Definition pm_threshold (pm : params) (pl : player) (rt : router) (r0 : N) (th : thresh) : res (router * option thres) :=
+  let rt := root_update pm pl r0 rt in          (* the player dispatches with (0,0,0) or (Round,Period,0) *)
   do _ <- pm_pre_threshold pl th;
   match th_t th with
   | TNext =>
@@ -369,7 +368,7 @@ Definition hres := res (player * router * list action).
 Definition enter_period (pm : params) (pl : player) (rt : router) (src : thresh) (target : N) : hres :=
   do r <- partition_policy pm pl rt;
   let '(rt1, acts) := r in
-  do r2 <- pm_threshold pm pl rt1 src;
+  do r2 <- pm_threshold pm pl rt1 (p_rnd pl) src;
   let '(rt2, out) := r2 in
   let pl' := mkPlayer (p_rnd pl) target s_soft (p_step pl) (filter_timeout pm target) dl_filter false 0
                       (p_pending pl) (p_pnext pl) in
@@ -415,7 +414,7 @@ Section Handle.
   Definition handle_threshold (pl : player) (rt : router) (th : thresh) : hres :=
     match th_t th with
     | TCert =>
-        do r <- pm_threshold pm pl rt th;
+        do r <- pm_threshold pm pl rt 0 th;
         let '(rt1, _) := r in
         do r2 <- d_staged pm pl rt1 (th_rnd th) (th_per th);
         let '(rt2, (sv, committable)) := r2 in
@@ -432,7 +431,7 @@ Section Handle.
         if th_per th <? p_per pl then Ok (pl, rt, [])
         else if p_per pl <? th_per th then enter_period pm pl rt th (th_per th)
         else
-          do r <- pm_threshold pm pl rt th;
+          do r <- pm_threshold pm pl rt (p_rnd pl) th;
           let '(rt1, out) := r in
           match out with
           | Some (THCommittable prop _) =>
@@ -586,9 +585,10 @@ Section Handle.
         end
     end.
 
-  Definition handle_fast_timeout (pl : player) (rt : router) (entropy : N) : hres :=
+  Definition handle_fast_timeout (pl : player) (rt : router) (entropy : N) (proto_err : bool) : hres :=
     let lambda := pm_frlambda pm in
-    if lambda =? 0 then Panic "player_div_zero"
+    if proto_err then Ok (pl, rt, [])
+    else if lambda =? 0 then Panic "player_div_zero"
     else
       let k := (p_frd pl + lambda - 1) / lambda in
       let lower := k * lambda in
@@ -619,7 +619,7 @@ Section Handle.
     match e with
     | PMsg m => handle_message pl rt m
     | PThresh th => handle_threshold pl rt th
-    | PTimeout true entropy _ => handle_fast_timeout pl rt entropy
+    | PTimeout true entropy bad => handle_fast_timeout pl rt entropy bad
     | PTimeout false entropy bad => handle_timeout pl rt entropy bad
     | PRoundInt r => enter_round pl rt r
     | PCheckpoint r p s err => Ok (pl, rt, [ACheckpoint r p s err])
